@@ -105,7 +105,8 @@ def path(eng, acc, task):
     try:
         mpo = build()
         M = mpo.as_matrix()
-    except (AssertionError, ValueError, IndexError, KeyError, TypeError, ZeroDivisionError) as e:
+    except Exception as e:
+        reraise_internal(e)
         # only the identically-zero operator is excluded: every entry of the textbook matrix vanishes on this path
         if model != 'linear_fermionic':
             Mz = ref()
